@@ -29,7 +29,7 @@ Section Analyzer.
     | TFacet => Some (facet_tokenizer text)
     end.
 
-  Definition analyze (T : tokenizer) (fs : list filter) (text : list cp) : option (list token) :=
+  Definition analyze (T : tokenizer) (fs : list tfilter) (text : list cp) : option (list token) :=
     match tokenize T text with
     | Some ts => apply_chain lower fold stem dict_find fs ts
     | None => None
@@ -76,7 +76,7 @@ Section Analyzer.
   Qed.
 
   (* the tokenizers never panic; a filter chain without the compound splitter never panics *)
-  Definition no_split (fl : filter) : bool := match fl with FSplit => false | _ => true end.
+  Definition no_split (fl : tfilter) : bool := match fl with FSplit => false | _ => true end.
 
   Lemma apply_chain_total fs : forallb no_split fs = true -> forall ts, apply_chain lower fold stem dict_find fs ts <> None.
   Proof.
@@ -147,7 +147,7 @@ Section Analyzer.
     Variables (szero : score) (sadd : score -> score -> score) (spos : score -> bool) (scmp : score -> score -> comparison).
     Variable lower_str : list cp -> list cp.
 
-    Definition generate (T : tokenizer) (fs : list filter) (terms : list (list cp * score)) (max : N) (text : list cp) : option snippet :=
+    Definition generate (T : tokenizer) (fs : list tfilter) (terms : list (list cp * score)) (max : N) (text : list cp) : option snippet :=
       match analyze T fs text with
       | Some ts => snippet_of score szero sadd spos scmp lower_str terms max text ts
       | None => None
